@@ -84,6 +84,20 @@ def make_reference(case: Case, seed: int, n_genes: int):
         proteome[tx_model.transcript_id] = aa_seq
     with open(case.gtf, 'wt') as handle:
         GtfIO.write(handle, anno)
+    # give every record a GENCODE-style biotype so that the annotation source can be
+    # inferred and the biotype filters of callNovelORF have something to look at
+    coding_genes = {m.gene_id for m in anno.transcripts.values() if m.is_protein_coding}
+    fixed = []
+    for ln in open(case.gtf).read().split('\n'):
+        if not ln:
+            continue
+        gid = [a.strip().split(' ')[1] for a in ln.split('\t')[8].split(';')
+               if a.strip().startswith('gene_id')][0]
+        bt = 'protein_coding' if gid in coding_genes else 'lncRNA'
+        # moPepGen.fake spells the tag 'mrna_end_NF'; the reader tests 'mRNA_end_NF'
+        fixed.append(ln.replace('tag mrna_end_NF', 'tag mRNA_end_NF') + f' gene_type {bt};')
+    with open(case.gtf, 'wt') as handle:
+        handle.write('\n'.join(fixed) + '\n')
     with open(case.genome, 'wt') as handle:
         writer = SeqIO.FastaIO.FastaWriter(handle, record2title=lambda x: x.id)
         for record in genome.values():
@@ -198,7 +212,7 @@ def call_variant_args(case: Case, out: Path, **kw) -> argparse.Namespace:
         args.genome_fasta = None
         args.annotation_gtf = None
         args.proteome_fasta = None
-    args.reference_source = None
+    args.reference_source = 'GENCODE'
     args.output_path = out
     args.graph_output_dir = None
     args.quiet = True
@@ -348,3 +362,186 @@ def run_call_variant(case: Case, tag: str = 'out', fail: str = '', timeouts: str
     res.table = read_table(table)
     res.trace = read_trace(trace)
     return res
+
+
+# ------------------------------------------------------------------ extras
+def make_snv(anno, genome, tx_id: str, tx_pos: int, alt: str):
+    """an SNV record (gene coordinates, as the parsers emit) at transcript position tx_pos"""
+    _imports()
+    from moPepGen.seqvar.VariantRecord import VariantRecord
+    from moPepGen.SeqFeature import FeatureLocation
+    tx_model = anno.transcripts[tx_id]
+    gene_id = tx_model.transcript.gene_id
+    gene_model = anno.genes[gene_id]
+    chrom = gene_model.chrom
+    gene_seq = gene_model.get_gene_sequence(genome[chrom])
+    g = anno.coordinate_transcript_to_genomic(tx_pos, tx_id)
+    start = anno.coordinate_genomic_to_gene(g, gene_id)
+    ref = str(gene_seq.seq[start:start + 1])
+    if ref == alt:
+        return None
+    return VariantRecord(
+        location=FeatureLocation(start=start, end=start + 1, seqname=gene_id),
+        ref=ref, alt=alt, _type='SNV', _id=f'{gene_id}-{start}-{ref}-{alt}',
+        attrs={'TRANSCRIPT_ID': tx_id, 'GENOMIC_POSITION': f'{chrom}-{g}:{g + 1}',
+               'GENE_SYMBOL': gene_model.gene_name})
+
+
+def plant_i_to_l(anno, genome, rng: random.Random, n: int = 2):
+    """SNVs that turn an isoleucine codon of a coding transcript into a leucine codon
+    (A>C at the first codon position): the variant peptide is then the I->L image of a
+    canonical peptide, which only the global canonical filter rejects."""
+    out = []
+    for tx_id, tx_model in anno.transcripts.items():
+        if not tx_model.is_protein_coding:
+            continue
+        tx_seq = tx_model.get_transcript_sequence(genome[tx_model.transcript.chrom])
+        if not tx_seq.orf:
+            continue
+        s = str(tx_seq.seq)
+        cands = [i for i in range(int(tx_seq.orf.start) + 3, int(tx_seq.orf.end) - 3, 3)
+                 if s[i:i + 3] in ('ATA', 'ATC', 'ATT')]
+        rng.shuffle(cands)
+        for i in cands[:n]:
+            try:
+                rec = make_snv(anno, genome, tx_id, i, 'C')
+            except Exception:   # noqa
+                rec = None
+            if rec is not None:
+                out.append(rec)
+    return out
+
+
+def duplicate_isoforms(case: Case, records):
+    """Give every gene a second, identical isoform (<tx>B) in GTF + proteome and
+    duplicate every small-variant record for it, so that two transcripts of one batch
+    yield the same variant peptides."""
+    import copy
+    from moPepGen.circ import CircRNAModel
+    lines = open(case.gtf).read().split('\n')
+    out = []
+    by_tx = {}
+    order = []
+    for ln in lines:
+        if not ln or ln.startswith('#'):
+            continue
+        f = ln.split('\t')
+        if f[2] == 'gene':
+            out.append(('gene', ln))
+            continue
+        tx = [a.strip().split(' ')[1] for a in f[8].split(';') if a.strip().startswith('transcript_id')][0]
+        if tx not in by_tx:
+            by_tx[tx] = []
+            order.append(tx)
+        by_tx[tx].append(ln)
+        out.append(('tx', ln))
+    new_lines = []
+    emitted = set()
+    for kind, ln in out:
+        new_lines.append(ln)
+    for tx in order:
+        for ln in by_tx[tx]:
+            new_lines.append(ln.replace(tx, tx + 'B').replace(tx.replace('FAKET', 'FAKEP'),
+                                                             tx.replace('FAKET', 'FAKEP') + 'B'))
+    with open(case.gtf, 'wt') as fh:
+        fh.write('\n'.join(new_lines) + '\n')
+    prot = open(case.proteome).read()
+    add = []
+    for block in prot.split('>')[1:]:
+        hdr, _, seq = block.partition('\n')
+        pid, tx, gene, rest = hdr.split('|', 3)
+        add.append(f'>{pid}B|{tx}B|{gene}|{rest}\n{seq}')
+    with open(case.proteome, 'at') as fh:
+        fh.write(''.join(add))
+    extra = []
+    for r in records:
+        if r.__class__ is CircRNAModel or r.type not in ('SNV', 'INDEL', 'RNAEditingSite'):
+            continue
+        r2 = copy.deepcopy(r)
+        r2.attrs['TRANSCRIPT_ID'] = r.attrs['TRANSCRIPT_ID'] + 'B'
+        extra.append(r2)
+    case.tx_ids = case.tx_ids + [t + 'B' for t in order]
+    return records + extra
+
+
+def small_variant(anno, genome, tx_id: str, tx_pos: int, kind: str, size: int,
+                  rng: random.Random):
+    """SNV / insertion / deletion record (gene coordinates, VCF-style anchoring) whose
+    first base is transcript position tx_pos; works on both strands. None if it does not
+    fit into one exon."""
+    _imports()
+    from moPepGen.seqvar.VariantRecord import VariantRecord
+    from moPepGen.SeqFeature import FeatureLocation
+    tx_model = anno.transcripts[tx_id]
+    gene_id = tx_model.transcript.gene_id
+    gene_model = anno.genes[gene_id]
+    chrom = gene_model.chrom
+    gene_seq = str(gene_model.get_gene_sequence(genome[chrom]).seq)
+    tx_len = tx_model.transcript_len()
+    span = 1 if kind in ('SNV', 'INS') else size + 1
+    if tx_pos < 0 or tx_pos + span > tx_len:
+        return None
+    gpos = []
+    for k in range(span):
+        g = anno.coordinate_transcript_to_genomic(tx_pos + k, tx_id)
+        gpos.append(anno.coordinate_genomic_to_gene(g, gene_id))
+    if any(b - a != 1 for a, b in zip(gpos, gpos[1:])):
+        return None          # crosses an exon junction
+    start, end = gpos[0], gpos[-1] + 1
+    ref = gene_seq[start:end]
+    if kind == 'SNV':
+        alt = rng.choice([c for c in 'ACGT' if c != ref])
+        vtype = 'SNV'
+    elif kind == 'INS':
+        alt = ref + ''.join(rng.choice('ACGT') for _ in range(size))
+        vtype = 'INDEL'
+    else:
+        alt = ref[0]
+        vtype = 'INDEL'
+    g0 = anno.coordinate_gene_to_genomic(start, gene_id)
+    return VariantRecord(
+        location=FeatureLocation(start=start, end=end, seqname=gene_id),
+        ref=ref, alt=alt, _type=vtype, _id=f'{gene_id}-{start}-{ref}-{alt}',
+        attrs={'TRANSCRIPT_ID': tx_id, 'GENOMIC_POSITION': f'{chrom}-{g0}:{g0 + 1}',
+               'GENE_SYMBOL': gene_model.gene_name})
+
+
+def dense_variants(anno, genome, tx_id: str, rng: random.Random, n: int, max_size: int = 4,
+                   snv_frac: float = 0.55, window: int = 40):
+    """n small variants of one transcript, clustered: a focus (start codon, stop codon,
+    a Sec codon, an exon junction, or a random point) is drawn and the variants fall in a
+    window around it, so adjacent / overlapping / frame-restoring combinations and variants
+    on special codons are frequent rather than rare."""
+    tx_model = anno.transcripts[tx_id]
+    tx_seq = tx_model.get_transcript_sequence(genome[tx_model.transcript.chrom])
+    tx_len = len(tx_seq.seq)
+    foci = [rng.randrange(tx_len)]
+    if tx_seq.orf:
+        foci += [int(tx_seq.orf.start) + 3, int(tx_seq.orf.end), int(tx_seq.orf.start) + rng.randrange(
+            3, max(4, int(tx_seq.orf.end) - int(tx_seq.orf.start)))]
+    for s in tx_seq.selenocysteine:
+        foci.append(int(s.start))
+    acc = 0
+    for ex in (tx_model.exon if tx_model.transcript.strand == 1 else tx_model.exon[::-1])[:-1]:
+        acc += len(ex.location)
+        foci.append(acc)
+    out, seen = [], set()
+    nfoci = rng.choice([1, 1, 2])
+    chosen = [rng.choice(foci) for _ in range(nfoci)]
+    tries = 0
+    while len(out) < n and tries < n * 20:
+        tries += 1
+        f = rng.choice(chosen)
+        pos = f + rng.randint(-window // 2, window // 2) if rng.random() < 0.85 \
+            else rng.randrange(tx_len)
+        r = rng.random()
+        kind = 'SNV' if r < snv_frac else ('INS' if r < snv_frac + (1 - snv_frac) / 2 else 'DEL')
+        try:
+            rec = small_variant(anno, genome, tx_id, pos, kind, rng.randint(1, max_size), rng)
+        except Exception:   # noqa  intronic / out of range
+            rec = None
+        if rec is None or rec.id in seen:
+            continue
+        seen.add(rec.id)
+        out.append(rec)
+    return out
